@@ -106,25 +106,68 @@ def _dbg():
             sys.stderr.write('\n'.join(tb[:45] + ['...'] + tb[-6:]) + '\n')
 
 
-def _drive(req_type, host, port):
-    """-> (refused: bool, written_before_method_reply, written_after)"""
+class _ProxyEndpoint(object):
+    """stands in for the TCP/unix endpoint of Tor's SOCKS port: builds the protocol of the factory it is given and connects it
+    to a recording transport"""
+
+    def __init__(self):
+        self.t = fakes.ListTransport()
+        self.p = None
+        self.err = None
+
+    def connect(self, factory):
+        from twisted.internet import defer
+        try:
+            self.p = factory.buildProtocol(None)
+            self.p.makeConnection(self.t)
+        except Exception as e:
+            self.err = e
+            return defer.fail(e)
+        return defer.succeed(self.p)
+
+
+def _drive(req_type, host, port, entry=0):
+    """-> (refused: bool, written_before_method_reply, written_after)
+    entry 0: _TorSocksFactory directly; 1: the public entry points (socks.resolve / resolve_ptr / TorSocksEndpoint.connect) with a
+    str target; 2: the same with the target given as ASCII bytes"""
     _last_exc[0] = None
-    try:
-        f = socks._TorSocksFactory(host, port, req_type, _AppFactory() if req_type == 'CONNECT' else None)
-        p = f.buildProtocol(None)
-    except Exception as e:
-        _last_exc[0] = e
-        _dbg()
-        return True, b'', b''
-    t = fakes.ListTransport()
-    refused = False
-    o = fakes.Outcome(p.when_done())
-    try:
-        p.makeConnection(t)
-    except Exception as e:
-        _last_exc[0] = e
-        _dbg()
-        refused = True
+    if entry:
+        target = host.encode('ascii') if entry == 2 else host
+        ep = _ProxyEndpoint()
+        try:
+            if req_type == 'RESOLVE':
+                o = fakes.Outcome(socks.resolve(ep, target))
+            elif req_type == 'RESOLVE_PTR':
+                o = fakes.Outcome(socks.resolve_ptr(ep, target))
+            else:
+                o = fakes.Outcome(socks.TorSocksEndpoint(ep, target, port).connect(_AppFactory()))
+        except Exception as e:
+            _last_exc[0] = e
+            _dbg()
+            return True, b'', b''
+        p, t = ep.p, ep.t
+        refused = bool(o.err) or ep.err is not None
+        if o.err or ep.err is not None:
+            _last_exc[0] = ep.err or o.exc()
+        if p is None:
+            return True, b'', b''
+    else:
+        try:
+            f = socks._TorSocksFactory(host, port, req_type, _AppFactory() if req_type == 'CONNECT' else None)
+            p = f.buildProtocol(None)
+        except Exception as e:
+            _last_exc[0] = e
+            _dbg()
+            return True, b'', b''
+        t = fakes.ListTransport()
+        refused = False
+        o = fakes.Outcome(p.when_done())
+        try:
+            p.makeConnection(t)
+        except Exception as e:
+            _last_exc[0] = e
+            _dbg()
+            refused = True
     first = b''.join(t.chunks)
     t.chunks = []
     if not refused:
@@ -139,9 +182,9 @@ def _drive(req_type, host, port):
     return refused, first, b''.join(t.chunks)
 
 
-def _check(req_type, host, port, kind, encodable):
+def _check(req_type, host, port, kind, encodable, entry=0):
     """kind: 'v4' | 'v6' | 'name'"""
-    refused, first, req = _drive(req_type, host, port)
+    refused, first, req = _drive(req_type, host, port, entry)
     if first != b'' and first != b'\x05\x01\x00':
         return R('bad-method-selection-message', '%r', first)
     if req_type == 'RESOLVE_PTR' and kind == 'name':
@@ -191,13 +234,16 @@ _LIT = [{'rt': r, 'fam': f, 'idx': i} for r in range(3) for f in (4, 6) for i in
 
 
 @cond(quick=dict(parts=_LIT, budget=60))
-def c06_literal(port: int, rt: int, fam: int, idx: int) -> str:
-    """IP literal targets x request types, every port"""
+def c06_literal(port: int, rt: int, fam: int, idx: int, entry: int) -> str:
+    """IP literal targets x request types, every port, through the factory and through the public entry points (str / bytes target)"""
     assume(0 <= port <= 65535)
+    entry = api.pick(entry, 0, 2)
+    if entry and rt != 0:
+        assume(port == 0)       # resolve() / resolve_ptr() take no port
     if known('C06-ipv6-connect-truncated'):
         assume(not (rt == 0 and fam == 6))
     host = (V4 if fam == 4 else V6)[idx]
-    return _check(TYPES[rt], host, port, 'v4' if fam == 4 else 'v6', True)
+    return _check(TYPES[rt], host, port, 'v4' if fam == 4 else 'v6', True, entry)
 
 
 _HN = [{'rt': r, 'n': n} for r in range(3) for n in range(0, 4)]
@@ -205,13 +251,16 @@ _HN_T = [{'rt': r, 'n': n} for r in range(3) for n in range(0, 6)]
 
 
 @cond(quick=dict(parts=_HN, budget=100), thorough=dict(parts=_HN_T, budget=900))
-def c06_hostname(port: int, tail: str, rt: int, n: int) -> str:
-    """hostname 'g'+tail with symbolic ASCII tail, every port"""
+def c06_hostname(port: int, tail: str, rt: int, n: int, entry: int) -> str:
+    """hostname 'g'+tail with symbolic ASCII tail, every port; names of up to 2 characters also through the public entry points"""
     assume(0 <= port <= 65535)
+    entry = api.pick(entry, 0, 2)
+    if entry:
+        assume(n <= 1 and (rt == 0 or port == 0))
     assume(len(tail) == n)
     for c in tail:
         assume(33 <= ord(c) <= 126)
-    return _check(TYPES[rt], 'g' + tail, port, 'name', True)
+    return _check(TYPES[rt], 'g' + tail, port, 'name', True, entry)
 
 
 @cond(quick=dict(parts=[{'rt': r, 'ln': ln} for r in range(3) for ln in (254, 255, 256, 300)], budget=60))
